@@ -56,6 +56,9 @@ struct Baselines {
     root: HashMap<(Pattern, u64, u64), Out>,
     /// (pattern, file name) → digest reported by `compute_digests_for_range` without cache
     digest: HashMap<(Pattern, String), String>,
+    /// (pattern, first, trios) → answer of the canonical database at the beacon one past its last
+    /// trio (what a clean node answers when the beacon's trio is absent)
+    missing: HashMap<(Pattern, u64, u64), Out>,
 }
 
 impl Baselines {
@@ -86,7 +89,7 @@ impl Baselines {
 }
 
 fn compute_baselines(eng: &Engine, scratch: &Path, patterns: &[Pattern], firsts: &[u64], nmax: u64, rep: &mut Report) -> Baselines {
-    let mut bl = Baselines { root: HashMap::new(), digest: HashMap::new() };
+    let mut bl = Baselines { root: HashMap::new(), digest: HashMap::new(), missing: HashMap::new() };
     for &p in patterns {
         for &first in firsts {
             for b in first..=first + nmax {
@@ -128,6 +131,7 @@ fn compute_baselines(eng: &Engine, scratch: &Path, patterns: &[Pattern], firsts:
                     }
                 }
                 bl.root.insert((p, first, b), out);
+                bl.missing.insert((p, first, db.n), eng.merkle(None, &dir, b + 1, 1));
                 let _ = std::fs::remove_dir_all(&base);
                 let _ = std::fs::remove_dir_all(&base2);
             }
@@ -159,6 +163,26 @@ enum Spec {
     TopLevel(u64),
     /// k-th permutation of the creation order of trio files + extras inside `immutable/`
     ImmPerm(u64),
+    /// canonical + one file `immutable/<other spelling of number xs[xi]>.<ext>`
+    Spelled(usize, usize, usize),
+    /// the files of covered trio `first + ti` (all three, or the chunk only) renamed to another
+    /// spelling of the number, contents kept
+    Renamed(u64, usize, bool),
+    /// canonical + one file with an immutable extension and a stem that is not a number
+    Foreign(usize, bool),
+}
+
+/// numbers whose other spellings are added as extra files: not in the database but below every
+/// beacon (when there is room), first trio, last trio, the trio after the last (the "missing
+/// beacon"), and one beyond every beacon
+fn spelled_numbers(db: Db) -> Vec<u64> {
+    let mut v = vec![];
+    if db.first > 0 {
+        v.push(db.first - 1);
+    }
+    v.extend([db.first, db.last(), db.last() + 1, db.last() + 2]);
+    v.dedup();
+    v
 }
 
 #[derive(Clone, Debug, PartialEq, Eq)]
@@ -166,6 +190,18 @@ enum Class {
     Beyond,
     Order,
     Extra(String),
+    /// a file in `immutable/` named `<number in a non-canonical spelling>.<immutable extension>`
+    NonCanonicalName,
+    /// a file in `immutable/` with an immutable extension and a stem that is not a number
+    ForeignImmutableExtension,
+}
+
+impl Class {
+    /// the layout is the canonical one plus files that are not immutable files (or the same files
+    /// in another order): a clean node and this node must agree also on "no root"
+    fn same_immutable_files_as_canonical(&self, spec: &Spec) -> bool {
+        !matches!(self, Class::Beyond) && !matches!(spec, Spec::Renamed(..))
+    }
 }
 
 fn beyond_additions(db: Db) -> Vec<(&'static str, Vec<Entry>, bool)> {
@@ -263,6 +299,35 @@ fn build(db: Db, spec: &Spec) -> (Vec<Entry>, Class, String) {
             let perm = nth_permutation(base.len(), *k);
             (perm.iter().map(|&i| base[i].clone()).collect(), Class::Order, format!("order:immutable-dir-permutation-{k}"))
         }
+        Spec::Spelled(xi, si, ext) => {
+            let x = spelled_numbers(db)[*xi];
+            let name = format!("{}.{}", spellings(x)[*si], EXTS[*ext]);
+            let e = file(&format!("immutable/{name}"), 5);
+            (canon.into_iter().chain([e]).collect(), Class::NonCanonicalName, format!("extra:immutable/non-canonical-name:{name}"))
+        }
+        Spec::Renamed(ti, si, whole) => {
+            let x = db.first + ti;
+            let sp = spellings(x)[*si].clone();
+            let es: Vec<Entry> = canon
+                .into_iter()
+                .map(|mut e| {
+                    if let Some((num, ext)) = as_trio_file(&e.rel)
+                        && num == x
+                        && (*whole || ext == 0)
+                    {
+                        e.rel = format!("immutable/{sp}.{}", EXTS[ext]);
+                    }
+                    e
+                })
+                .collect();
+            (es, Class::NonCanonicalName, format!("renamed:{}-of-{x:05}-to-{sp}", if *whole { "trio" } else { "chunk" }))
+        }
+        Spec::Foreign(i, first) => {
+            let name = foreign_names(db.first, db.last()).swap_remove(*i);
+            let e = file(&format!("immutable/{name}"), 5);
+            let es: Vec<Entry> = if *first { [e].into_iter().chain(canon).collect() } else { canon.into_iter().chain([e]).collect() };
+            (es, Class::ForeignImmutableExtension, format!("extra:immutable/foreign-immutable-extension:{name:?}:{}", if *first { "created-first" } else { "created-last" }))
+        }
     }
 }
 
@@ -280,6 +345,8 @@ fn class_key(c: &Class) -> String {
         Class::Beyond => "C12/files-beyond-beacon-change-root".into(),
         Class::Order => "C12/root-depends-on-creation-order".into(),
         Class::Extra(place) => format!("C12/root-depends-on-extra-file:{place}"),
+        Class::NonCanonicalName => "C12/non-canonical-name-digested-as-immutable".into(),
+        Class::ForeignImmutableExtension => "C12/foreign-file-with-immutable-extension-breaks-computation".into(),
     }
 }
 
@@ -383,6 +450,7 @@ fn eval_variant(eng: &Engine, base: &Path, db: Db, spec: &Spec, light: bool, bl:
         st.listings.insert((db, hash64(&listing(&dbdir.join("immutable")))));
     }
     let layout_id = hash64(&es);
+    let same_files = class.same_immutable_files_as_canonical(spec);
     let combos: Vec<(DirV, Chan)> = if light {
         vec![(DirV::Db, Chan::Tree)]
     } else {
@@ -391,6 +459,7 @@ fn eval_variant(eng: &Engine, base: &Path, db: Db, spec: &Spec, light: bool, bl:
     for b in db.first..=db.last() + 1 {
         let Some(baseline) = bl.root(db, b) else { continue };
         let complete = covered_complete(&es, db.p, db.first, b);
+        let canon_missing = if b == db.last() + 1 { bl.missing.get(&(db.p, db.first, db.n)) } else { None };
         let mut base_chan_ok = true;
         // is the cache-less computation fine for the directory currently handed in?
         let mut imm_tree_ok = true;
@@ -404,7 +473,10 @@ fn eval_variant(eng: &Engine, base: &Path, db: Db, spec: &Spec, light: bool, bl:
             if out.is_root() {
                 rep.nontrivial(&("layout", db, layout_id, b, dirv, ch));
             }
-            if conforms(&out, baseline, complete) {
+            // a layout that holds the same immutable files as the canonical one must also agree with
+            // it on "no root" when the beacon's trio is absent
+            let rootness_ok = complete || !same_files || canon_missing.is_none_or(|c| c.is_root() == out.is_root());
+            if conforms(&out, baseline, complete) && rootness_ok {
                 rep.outcome(match (&out, complete) {
                     (Out::Root(_), true) => "root-equals-baseline",
                     (Out::Root(_), false) => "beacon-trio-incomplete→different-root",
@@ -415,15 +487,26 @@ fn eval_variant(eng: &Engine, base: &Path, db: Db, spec: &Spec, light: bool, bl:
             }
             rep.outcome("MISMATCH");
             if !complete {
-                let key = "C12/covered-file-missing-not-reflected";
-                rep.violation(
-                    key,
+                let key = match &class {
+                    Class::NonCanonicalName | Class::ForeignImmutableExtension => class_key(&class),
+                    _ if !rootness_ok => class_key(&class),
+                    _ => "C12/covered-file-missing-not-reflected".to_string(),
+                };
+                let what = if !rootness_ok {
                     format!(
-                        "{:?}, layout {desc}: the files of trio {b} are not all present, yet {} via {} at beacon {b} answers {} — the root of the complete database",
-                        db, ch.name(), dirv.name(), out.show()
-                    ),
-                    layout_case(db, &es, &desc, b, dirv, ch, key),
-                );
+                        "{:?}, layout {desc}: no immutable file numbered {b} exists (a database holding only the canonical files answers {}), yet {} via {} at beacon {b} answers {}",
+                        db, canon_missing.map(|c| c.show()).unwrap_or_default(), ch.name(), dirv.name(), out.show()
+                    )
+                } else {
+                    format!(
+                        "{:?}, layout {desc} [{}]: the immutable files numbered up to {b} are not all present, yet {} via {} at beacon {b} answers {} — the root of the complete database",
+                        db, brief(&es), ch.name(), dirv.name(), out.show()
+                    )
+                };
+                rep.outcome(if !rootness_ok { "MISMATCH:root-although-no-immutable-file-of-the-beacon-exists" } else { "MISMATCH:covered-files-missing-yet-root-of-complete-database" });
+                let mut case = layout_case(db, &es, &desc, b, dirv, ch, &key);
+                case["must_not_yield_root"] = json!(!rootness_ok);
+                rep.violation(&key, what, case);
                 continue;
             }
             if (dirv, ch) == (DirV::Db, Chan::Tree) {
@@ -492,14 +575,19 @@ fn eval_variant(eng: &Engine, base: &Path, db: Db, spec: &Spec, light: bool, bl:
                     }
                     other => {
                         rep.outcome("MISMATCH");
-                        let key = format!("C12/range-digests-depend-on-layout:{}", class_key(&class).trim_start_matches("C12/"));
+                        let key = match &class {
+                            Class::NonCanonicalName | Class::ForeignImmutableExtension => class_key(&class),
+                            _ => format!("C12/range-digests-depend-on-layout:{}", class_key(&class).trim_start_matches("C12/")),
+                        };
+                        let mut case = layout_case(db, &es, &desc, b, dirv, Chan::Tree, &key);
+                        case["check"] = json!("range-digests");
                         rep.violation(
                             &key,
                             format!(
-                                "{:?}, layout {desc}: compute_digests_for_range({}..={b}) via {} gives {:?}, the canonical layout gives {:?}",
+                                "{:?}, layout {desc}: compute_digests_for_range({}..={b}) via {} gives {:?}, the digests of the immutable files present are {:?}",
                                 db, db.first, dirv.name(), other, want
                             ),
-                            layout_case(db, &es, &desc, b, dirv, Chan::Tree, &key),
+                            case,
                         );
                     }
                 }
@@ -545,6 +633,23 @@ fn specs_for(db: Db, thorough: bool, full_perm_db: bool) -> Vec<(Spec, bool)> {
     }
     for k in 0..24 {
         v.push((Spec::TopLevel(k), false));
+    }
+    for (xi, x) in spelled_numbers(db).into_iter().enumerate() {
+        for si in 0..spellings(x).len() {
+            for ext in 0..3 {
+                v.push((Spec::Spelled(xi, si, ext), false));
+            }
+        }
+    }
+    for ti in 0..db.n {
+        for si in 0..spellings(db.first + ti).len() {
+            v.push((Spec::Renamed(ti, si, true), false));
+            v.push((Spec::Renamed(ti, si, false), false));
+        }
+    }
+    for i in 0..foreign_names(db.first, db.last()).len() {
+        v.push((Spec::Foreign(i, true), false));
+        v.push((Spec::Foreign(i, false), false));
     }
     if db.n == 1 || (thorough && db.n == 2) {
         let l = len + imm_extras(db).len();
@@ -976,13 +1081,6 @@ fn observations(eng: &Engine, scratch: &Path, bl: &Baselines, db: Db) -> Value {
         let out = eval_once(eng, &scratch.join("obs"), &es, DirV::Db, Chan::Tree, b);
         obs.insert(name.to_string(), json!(verdict(&out)));
     };
-    // immutable extension, stem not a number
-    run("immutable/abc.chunk (immutable extension, stem not a number)", canon.clone().into_iter().chain([file("immutable/abc.chunk", 5)]).collect());
-    run("immutable/.tmp.chunk (hidden temp file with immutable extension)", canon.clone().into_iter().chain([file("immutable/.tmp.chunk", 5)]).collect());
-    // numeric stem in another spelling: counts as an immutable file of that number
-    run(&format!("immutable/{}.chunk (4-digit name, number beyond the beacon)", db.first + 1000), canon.clone().into_iter().chain([file(&format!("immutable/{}.chunk", db.first + 1000), 5)]).collect());
-    run(&format!("immutable/{}.chunk (unpadded spelling of covered number {})", db.first, db.first), canon.clone().into_iter().chain([file(&format!("immutable/{}.chunk", db.first), 5)]).collect());
-    run("immutable/99999999999999999999.chunk (number beyond u64)", canon.clone().into_iter().chain([file("immutable/99999999999999999999.chunk", 5)]).collect());
     // stale cache: a covered byte changes after the cache was warmed (outside the property: the
     // property only speaks of cache state over unchanged files, and of sensitivity without cache)
     {
@@ -1035,7 +1133,7 @@ fn replay(ctx: &Ctx, rep: &mut Report, v: &Value) {
                 return;
             };
             let complete = covered_complete(&es, db.p, db.first, b);
-            if key.starts_with("C12/range-digests") {
+            if key.starts_with("C12/range-digests") || v["check"].as_str() == Some("range-digests") {
                 let base = scratch.join("replay");
                 let dbdir = materialize(&base, &es);
                 let got = eng.range(None, &dirv.path(&dbdir), db.first, b);
@@ -1045,7 +1143,9 @@ fn replay(ctx: &Ctx, rep: &mut Report, v: &Value) {
                 }
             } else {
                 let out = eval_once(&eng, &scratch.join("replay"), &es, dirv, ch, b);
-                if !conforms(&out, baseline, complete) {
+                if v["must_not_yield_root"].as_bool() == Some(true) && out.is_root() {
+                    rep.violation(&key, format!("replayed: {} via {} at beacon {b} answers {} although no immutable file numbered {b} exists", ch.name(), dirv.name(), out.show()), v.clone());
+                } else if !conforms(&out, baseline, complete) {
                     rep.violation(&key, format!("replayed: {} via {} at beacon {b} answers {}, baseline {}", ch.name(), dirv.name(), out.show(), baseline.show()), v.clone());
                 }
             }
@@ -1308,7 +1408,7 @@ pub fn run(ctx: &Ctx) -> ! {
     rep.assume("creation orders: all permutations of the trio files for 1 and 2 trios (and of 1 trio + 3 extras inside immutable/; thorough: 2 trios + 1 extra, and all 9! orders of 3 trios for one database); rotations, reversals, extension-major and interleaved orders beyond; all 24 orders of the four top-level groups");
     rep.assume("the reference is the real code's own cache-less answer on the canonical layout (differential oracle, no re-implementation of SHA-256 or of the Merkle tree); the sensitivity clauses (part B) keep a constant or truncated digest from passing");
     rep.assume("cache histories are over unchanged files only, as the property says; a cache warmed before a file changed is reported as an observation");
-    rep.assume("an extra file is one that is not an immutable file by name: outside immutable/, or inside it without the exact extension chunk/primary/secondary, or a directory. Files inside immutable/ with an immutable extension and another spelling of the number or a non-numeric stem, and a second directory named 'immutable', are reported under observations_outside_the_property, not judged");
+    rep.assume("an extra file is one that is not an immutable file by name: outside immutable/, or inside it without the exact extension chunk/primary/secondary, or a directory. Files inside immutable/ with an immutable extension but not the name NNNNN.<ext> of an immutable file (another spelling of a number, or a stem that is not a number) are extra files too and are judged (keys non-canonical-name-digested-as-immutable / foreign-file-with-immutable-extension-breaks-computation). A second directory named 'immutable' is reported under observations_outside_the_property, not judged");
     rep.assume("a beacon whose trio is absent or incomplete must not give the root of the complete database (an error is the usual answer); the property does not demand the error itself");
     rep.finish(ctx)
 }
